@@ -197,8 +197,11 @@ func (fp *FnPaths) inlinable(s *Seg, c *ssa.Call, stack []inlFrame) *ssa.Functio
 		return nil
 	}
 	f := c.Call.StaticCallee()
-	if f == nil || f.Blocks == nil || f.Pkg == nil || f.Pkg != fp.Fn.Pkg || f.Synthetic != "" || f == fp.Fn {
+	if f == nil || f.Blocks == nil || f.Pkg == nil || f.Synthetic != "" || f == fp.Fn {
 		return nil
+	}
+	if f.Pkg != fp.Fn.Pkg && !(IsRepoPkg(f.Pkg.Pkg) && pureLeaf(f)) {
+		return nil // helpers of other repository packages are expanded only when they are pure leaf predicates
 	}
 	// a local closure of the analysed function (`report := func(err error) bool {...}`) is expanded like a
 	// helper; closures of other functions are not
@@ -665,7 +668,7 @@ func (s *Seg) evalInlinedCond(cond ssa.Value) (val, known bool) {
 		}
 		if other != nil {
 			switch other.(type) {
-			case *ssa.Call, *ssa.Extract:
+			case *ssa.Call, *ssa.Extract, *ssa.UnOp: // (a load of a local cell that holds an expanded helper's result)
 				r := s.Resolve(other)
 				if r == other {
 					return false, false
@@ -857,6 +860,10 @@ func (s *Seg) term(v ssa.Value, d int) string {
 		return s.term(t.X, d+1) + "[&" + s.term(t.Index, d+1) + "]"
 	case *ssa.BinOp:
 		return "(" + s.term(t.X, d+1) + t.Op.String() + s.term(t.Y, d+1) + ")"
+	}
+	// register names are unique per function only: a value of an expanded helper is qualified
+	if in, ok := v.(ssa.Instruction); ok && s != nil && s.Fn != nil && in.Parent() != nil && in.Parent() != s.Fn {
+		return in.Parent().Name() + "·" + v.Name()
 	}
 	return v.Name()
 }
@@ -1143,7 +1150,17 @@ func IsCallTo(c *ssa.CallCommon, full string) bool {
 		return ifaceMethodName(m) == full
 	}
 	if f := StaticCallee(c); f != nil {
-		return f.String() == full || (f.Object() != nil && objFullName(f.Object()) == full)
+		if f.String() == full || (f.Object() != nil && objFullName(f.Object()) == full) {
+			return true
+		}
+		// a thin adapter method that only forwards to the named interface method stands for it
+		if i := strings.LastIndex(full, "."); i >= 0 && f.Signature.Recv() != nil && f.Name() == full[i+1:] && f.Blocks != nil && isPlainForwarder(f, f.Name()) {
+			for _, in := range f.Blocks[0].Instrs {
+				if ic, ok := in.(*ssa.Call); ok {
+					return IsCallTo(&ic.Call, full)
+				}
+			}
+		}
 	}
 	return false
 }
@@ -1509,4 +1526,34 @@ func segSig(s *Seg) string {
 
 func sortSegs(segs []*Seg) {
 	sort.SliceStable(segs, func(i, j int) bool { return segSig(segs[i]) < segSig(segs[j]) })
+}
+
+var pureLeafCache = map[*ssa.Function]bool{}
+
+// pureLeaf: a package-level function without side effects and without calls (builtins aside): no store, send,
+// go, defer, map update or call of another function - e.g. a shared predicate over its arguments.
+func pureLeaf(f *ssa.Function) bool {
+	if v, ok := pureLeafCache[f]; ok {
+		return v
+	}
+	ok := f.Parent() == nil && f.Signature.Recv() == nil && f.Signature.Results().Len() > 0
+	for i := 0; i < f.Signature.Results().Len(); i++ {
+		if _, isBasic := f.Signature.Results().At(i).Type().Underlying().(*types.Basic); !isBasic {
+			ok = false // predicates and arithmetic only: constructors stay visible as calls
+		}
+	}
+	for _, b := range f.Blocks {
+		for _, in := range b.Instrs {
+			switch t := in.(type) {
+			case *ssa.Store, *ssa.Send, *ssa.Go, *ssa.Defer, *ssa.MapUpdate, *ssa.MakeClosure, *ssa.Select:
+				ok = false
+			case *ssa.Call:
+				if _, isB := t.Call.Value.(*ssa.Builtin); !isB {
+					ok = false
+				}
+			}
+		}
+	}
+	pureLeafCache[f] = ok
+	return ok
 }
